@@ -238,6 +238,9 @@ func (ex *Exec) isObserverPkg(fn *types.Func) bool {
 }
 
 func (ex *Exec) callFunc(p *Path, fn *types.Func, recv *Value, args []Value, call *ast.CallExpr) []Value {
+	if !ex.inContract() {
+		ex.escapeArgs(p, recv, args)
+	}
 	pos := token.NoPos
 	if call != nil {
 		pos = call.Pos()
@@ -415,10 +418,12 @@ func (ex *Exec) havocCall(p *Path, fn *types.Func, mayWriteHeap bool) []Value {
 	sig := fn.Type().(*types.Signature)
 	ex.havocked[fn.FullName()] = true
 	if mayWriteHeap && !ex.isObserverPkg(fn) {
+		keep := ex.keepPrivate(p)
 		if !ex.havocCalleeWrites(p, fn) {
 			ex.havocWhy = append(ex.havocWhy, "call to "+shortKey(fn)+" (no contract, body not inlined)")
 			ex.havocMutableHeap(p)
 		}
+		keep()
 	}
 	var out []Value
 	for i := 0; i < sig.Results().Len(); i++ {
@@ -921,11 +926,14 @@ func (ex *Exec) applyContract(p *Path, c *Contract, fn *types.Func, recv *Value,
 	}
 	for _, m := range c.Modifies {
 		if m == "*" {
+			keep := ex.keepPrivate(p)
 			if ex.havocCalleeWrites(p, fn) {
+				keep()
 				continue
 			}
 			ex.havocWhy = append(ex.havocWhy, "call to "+c.Key+" (modifies *)")
 			ex.havocMutableHeap(p)
+			keep()
 			continue
 		}
 		field := ""
